@@ -78,6 +78,31 @@ def _call(case):
         return case, None, "".join(traceback.format_exception(type(e), e, e.__traceback__))
 
 
+def _call_chunk(chunk):
+    return [_call(c) for c in chunk]
+
+
+def _chunks(cases, n):
+    import itertools
+    it = iter(cases)
+    while True:
+        chunk = list(itertools.islice(it, n))
+        if not chunk:
+            return
+        yield chunk
+
+
+def _replay_in_child(fn, case, timeout):
+    pool = mp.get_context("fork").Pool(1)
+    try:
+        return pool.apply_async(fn, (case,)).get(timeout)
+    except mp.TimeoutError:
+        return None
+    finally:
+        pool.terminate()
+        pool.join()
+
+
 def pmap(fn, cases, chunksize=64, nproc=None, budget_s=None):
     """Yield (case, result) for every case; fork-based pool so the parent's imported library (the
     working tree) is what the workers run.  Order of results is not significant to callers.
@@ -99,7 +124,28 @@ def pmap(fn, cases, chunksize=64, nproc=None, budget_s=None):
     ctx = mp.get_context("fork")
     pool = ctx.Pool(nproc, maxtasksperchild=None)
     try:
-        for case, res, err in pool.imap_unordered(_call, cases, chunksize=chunksize):
+        it = pool.imap_unordered(_call_chunk, _chunks(cases, chunksize))   # chunksize 1 here: an iterator with next(timeout)
+        pending = []
+        while True:
+            try:
+                if not pending:
+                    pending = list(it.next(timeout=STALL_S))
+                case, res, err = pending.pop(0)
+            except StopIteration:
+                break
+            except mp.TimeoutError:
+                # no worker has delivered anything for STALL_S seconds.  If violations are already in hand the exploration
+                # stops here and reports them (a change whose output grows from rendering to rendering makes later cases in
+                # the same long-lived worker run for hours); with nothing in hand it keeps waiting and check.py's wall-clock
+                # watchdog decides, so a slow machine can never turn a stall into an alarm or into a silent pass.
+                run = CURRENT_RUN
+                if run is not None and run.raw_violations:
+                    pmap.capped = True
+                    run.stalled = True
+                    run.caps.append(f"workers delivered nothing for {STALL_S} s after {len(run.raw_violations)} violation(s) were "
+                                    f"observed: exploration stopped early, the violations in hand are reported")
+                    return
+                continue
             if err:
                 raise HarnessError(err)
             yield case, res
@@ -112,6 +158,8 @@ def pmap(fn, cases, chunksize=64, nproc=None, budget_s=None):
 
 
 pmap.capped = False
+STALL_S = int(os.environ.get("VERIF_STALL_S", "120"))
+CURRENT_RUN = None
 
 
 # ----------------------------------------------------------------------------------------------
@@ -120,6 +168,8 @@ pmap.capped = False
 
 class Run:
     def __init__(self, prop, tier, seed, level="model_checking"):
+        global CURRENT_RUN
+        CURRENT_RUN = self
         self.prop, self.tier, self.seed, self.level = prop, tier, seed, level
         self.t0 = time.time()
         self.states = set()
@@ -199,7 +249,15 @@ class Run:
             if replay_fn is not None:
                 reproduced = False
                 for _ in range(3):
-                    again = replay_fn(g["case"])
+                    if getattr(self, "stalled", False):
+                        # the workers stopped delivering: whatever made them slow would compound in this process too, from
+                        # replay to replay - each replay gets a fresh forked child and a time limit instead
+                        again = _replay_in_child(replay_fn, g["case"], 2 * STALL_S)
+                        if again is None:
+                            g["v"] = dict(g["v"], detail=g["v"].get("detail", "") + f" [replay in a fresh process did not finish within {2 * STALL_S} s]")
+                            break
+                    else:
+                        again = replay_fn(g["case"])
                     sigs2 = {(x["clause"], x["site"], tuple(x["shape"])) for x in again.get("viol", ())}
                     if sig in sigs2:
                         reproduced = True
